@@ -14,6 +14,7 @@
 import Vita.C07.Stream
 import Vita.C07.Gen
 import Vita.C07.GenCode
+import Vita.C07.Random
 open Vita.C07 Vita.Rng
 
 def fold (h : UInt64) (o : UInt64) : UInt64 := h * 0x100000001B3 + o
@@ -116,6 +117,39 @@ def drawsAnswer (count : Nat) (e : Xo) (draw : Xo → Int × Xo) : String := Id.
     if i < 4 then firsts := firsts ++ [v]
   return " ".intercalate (firsts.map toString ++ [toString h])
 
+/-- engine of the `vita::random` requests: a 32-bit seed or explicit state words -/
+def rEngineOf (s : String) : Option Xo :=
+  if s.startsWith "st:" then engineOf s
+  else s.toNat?.bind fun n => if n < 2 ^ 32 then some (Xo.seed n.toUInt64) else none
+
+def betdAnswer (count : Nat) (e : Xo) (a b : Float) : String := Id.run do
+  let mut e := e
+  let mut h : UInt64 := 0
+  let mut firsts : List UInt64 := []
+  let mut lo := 0
+  let mut eq := 0
+  let mut hi := 0
+  for i in [0:count] do
+    let (v, e') := betweenD a b e
+    e := e'
+    h := fold h v.toBits
+    if i < 4 then firsts := firsts ++ [v.toBits]
+    if v < a then lo := lo + 1
+    if v == b then eq := eq + 1
+    if v > b then hi := hi + 1
+  return " ".intercalate (firsts.map toString ++ [toString h, s!"lo={lo}", s!"eq={eq}", s!"hi={hi}"])
+
+def boolAnswer (count : Nat) (e : Xo) (p : Float) : String := Id.run do
+  let mut e := e
+  let mut h : UInt64 := 0
+  let mut ones := 0
+  for _ in [0:count] do
+    let (v, e') := boolean p e
+    e := e'
+    h := fold h (if v then 1 else 0)
+    if v then ones := ones + 1
+  return s!"{h} ones={ones}"
+
 def answer (line : String) : String :=
   match (line.trimAscii.toString.splitOn " ").filter (· ≠ "") with
   | ["gen"] =>
@@ -193,6 +227,49 @@ def answer (line : String) : String :=
     | some s, some bound, some count =>
       if bound = 0 ∨ s ≥ 2 ^ 32 then "bad-op"
       else drawsAnswer count (Xo.seed s.toUInt64) fun e => let (v, e) := sup bound e; ((v : Int), e)
+    | _, _, _ => "bad-op"
+  | ["supu", s, bound, count] =>
+    match rEngineOf s, bound.toNat?, count.toNat? with
+    | some e, some bound, some count =>
+      if bound = 0 ∨ bound ≥ 2 ^ 32 then "bad-op"
+      else drawsAnswer count e fun e => let (v, e) := sup bound e; ((v : Int), e)
+    | _, _, _ => "bad-op"
+  | ["betu64", s, a, b, count] =>
+    match rEngineOf s, a.toNat?, b.toNat?, count.toNat? with
+    | some e, some a, some b, some count =>
+      if a ≥ b ∨ b ≥ 2 ^ 64 then "bad-op" else drawsAnswer count e (between a b)
+    | _, _, _, _ => "bad-op"
+  | ["inr", s, a, b, count] =>
+    match rEngineOf s, a.toInt?, b.toInt?, count.toNat? with
+    | some e, some a, some b, some count => if a ≥ b then "bad-op" else drawsAnswer count e (between a b)
+    | _, _, _, _ => "bad-op"
+  | ["elem", s, size, count] =>
+    match rEngineOf s, size.toNat?, count.toNat? with
+    | some e, some size, some count =>
+      if size = 0 then "bad-op"
+      else
+        -- the harness first draws from both overloads of element() in turn (2 draws per round, equal indices
+        -- would need equal draws: answers 1 unless they coincide), then the index through the const overload
+        let both := drawsAnswer count e fun e =>
+          let (i, e) := elementIdx size e
+          let (j, e) := elementIdx size e
+          ((if i = j then 0 else 1 : Int), e)
+        let idx := drawsAnswer count e fun e => let (v, e) := elementIdx size e; ((v : Int), e)
+        both ++ " | " ++ idx
+    | _, _, _ => "bad-op"
+  | ["ring", s, base, width, n, count] =>
+    match rEngineOf s, base.toNat?, width.toNat?, n.toNat?, count.toNat? with
+    | some e, some base, some width, some n, some count =>
+      if width = 0 ∨ n < 2 ∨ base ≥ n then "bad-op"
+      else drawsAnswer count e fun e => let (v, e) := ring base width n e; ((v : Int), e)
+    | _, _, _, _, _ => "bad-op"
+  | ["betd", s, a, b, count] =>
+    match rEngineOf s, a.toNat?, b.toNat?, count.toNat? with
+    | some e, some a, some b, some count => betdAnswer count e (Float.ofBits a.toUInt64) (Float.ofBits b.toUInt64)
+    | _, _, _, _ => "bad-op"
+  | ["bool", s, p, count] =>
+    match rEngineOf s, p.toNat?, count.toNat? with
+    | some e, some p, some count => boolAnswer count e (Float.ofBits p.toUInt64)
     | _, _, _ => "bad-op"
   | ["between", s, a, b, count] =>
     match s.toNat?, a.toInt?, b.toInt?, count.toNat? with
